@@ -109,17 +109,19 @@ BOUNDS = {
 }
 
 # Defects of the unchanged tree found with this harness (each reproduced through the public API, see the notes next to the region predicates).
+# (arg_tie, moment_empty, argtopk_short, topk_shape and the general part of flatten_empty were repaired in /repo; arg_empty, minmax_empty_nd, cum_empty
+# and the degenerate rest of flatten_empty are open known findings in known_findings.json, matched by "kf_<name> == 1".)
 # While an entry is True the failing REGION (a model variable kf_<name> == 1 names it) is left out of the strict comparison; set an entry to
 # False once dask is repaired (or to have the violation reported / matched by a known-finding predicate "kf_<name> == 1").
 KNOWN = {
-    "arg_tie": True,          # argmin/argmax(axis=None) of an n-d array: tie between blocks -> not NumPy's first occurrence
-    "arg_empty": True,        # arg reductions raise ValueError when a block is empty along the reduced axis
-    "minmax_empty_nd": True,  # min/max/nanmin/nanmax of an n-d (n >= 2) array that has an empty chunk raise ValueError
-    "moment_empty": True,     # var/std/moment (+nan) give NaN when an empty chunk passes through moment_combine (tree of >= 2 levels)
-    "cum_empty": True,        # sequential cumsum/cumprod: an empty chunk before a non-empty one -> ValueError or silently empty blocks
-    "flatten_empty": True,    # cumsum/cumprod(axis=None) of an n-d array with an empty chunk: x.flatten() raises (reshape defect)
-    "argtopk_short": True,    # argtopk: the final aggregate sees <= |k| candidates in >= 2 pieces -> AttributeError / ValueError
-    "topk_shape": True,       # topk/argtopk with |k| > axis length declare a result of length |k| but compute one of the axis length
+    "arg_tie": False,          # argmin/argmax(axis=None) of an n-d array: tie between blocks -> not NumPy's first occurrence
+    "arg_empty": False,        # arg reductions raise ValueError when a block is empty along the reduced axis
+    "minmax_empty_nd": False,  # min/max/nanmin/nanmax of an n-d (n >= 2) array that has an empty chunk raise ValueError
+    "moment_empty": False,     # var/std/moment (+nan) give NaN when an empty chunk passes through moment_combine (tree of >= 2 levels)
+    "cum_empty": False,        # sequential cumsum/cumprod: an empty chunk before a non-empty one -> ValueError or silently empty blocks
+    "flatten_empty": False,    # cumsum/cumprod(axis=None) of an n-d array with an empty chunk: x.flatten() raises (reshape defect)
+    "argtopk_short": False,    # argtopk: the final aggregate sees <= |k| candidates in >= 2 pieces -> AttributeError / ValueError
+    "topk_shape": False,       # topk/argtopk with |k| > axis length declare a result of length |k| but compute one of the axis length
 }
 
 _strict = __import__("os").environ.get("C22_STRICT", "")      # development: C22_STRICT=all (or a comma list of names) asserts inside those regions too
@@ -635,8 +637,8 @@ def mk_arg_offsets(nblocks):
             d = _from(x, chunks)
             for axis in [None] + list(range(nd)):
                 for op in ("argmin", "argmax"):
-                    if skip("arg_empty", reg_arg_empty(chunks, axis)) or skip("arg_tie", reg_arg_tie(x, chunks, axis, op)):
-                        continue
+                    if reg_arg_empty(chunks, axis):
+                        continue        # witnesses of this obligation stay outside the open finding C22-arg-reduction-empty-chunk (no model variable here; the arg[...] obligations cover that region)
                     got = getattr(da, op)(d, axis=axis, split_every=2).compute(scheduler="sync")
                     want = getattr(np, op)(x, axis=axis)
                     if not np.array_equal(got, want):
@@ -1071,6 +1073,59 @@ def mk_deep2(tier, max0, max1):
 
 # ---------------------------------------------------------------- obligations
 
+def mk_nan_data(cols):
+    """the nan-variants on data that really CONTAINS NaN (results that are exact: indices, and sums/extrema of small integers): every NaN mask of a
+    2 x cols float array with distinct integer values in two orders, every chunking of the columns into <= 3 chunks, rows in one or two chunks.
+    Where NumPy raises (all-NaN slice for nanargmin/nanargmax) dask must raise too. Values pass through NumPy: solver-enumerated."""
+    import itertools as _it
+    col_chunkings = [c for k in (1, 2, 3) for c in _it.product(range(1, cols + 1), repeat=k) if builtins.sum(c) == cols]
+
+    def setup(e):
+        mask = [e.flag(f"nan{i}") for i in range(2 * cols)]
+        order = e.pick("order", ("increasing", "decreasing"))
+        cc = e.pick("col_chunks", col_chunkings)
+        rc = e.pick("row_chunks", ((2,), (1, 1)))
+        return mask, order, cc, rc
+
+    def run(e, mask, order, cc, rc):
+        vals = np.arange(1, 2 * cols + 1, dtype=float)
+        if order == "decreasing":
+            vals = vals[::-1].copy()
+        vals[np.array(mask, dtype=bool)] = np.nan
+        x = vals.reshape(2, cols)
+        d = da.from_array(x, chunks=(rc, cc))
+        info = f"x={x.tolist()} chunks={(rc, cc)}"
+        out = []
+        import warnings
+        for name in ("nanargmax", "nanargmin", "nanmax", "nanmin", "nansum", "nanprod", "nancumsum"):
+            for axis in ((0, 1, None) if name != "nancumsum" else (0, 1)):
+                for se in ((None, 2) if not name.startswith("nancum") else (None,)):
+                    kw = {} if name.startswith("nancum") else dict(split_every=se)
+                    with warnings.catch_warnings():
+                        warnings.simplefilter("ignore")
+                        try:
+                            want = getattr(np, name)(x, axis=axis)
+                            werr = None
+                        except ValueError as ex:
+                            want, werr = None, ex
+                        try:
+                            got = getattr(da, name)(d, axis=axis, **kw).compute(scheduler="sync")
+                            gerr = None
+                        except ValueError as ex:
+                            got, gerr = None, ex
+                    if werr is not None:
+                        e.check(gerr is not None, f"{name}(axis={axis}): NumPy raises {werr!r} but dask returns {got!r} ({info})")
+                        out.append("raises")
+                        continue
+                    e.check(gerr is None, f"{name}(axis={axis}, split_every={se}): dask raises {gerr!r}, NumPy returns {np.asarray(want).tolist()} ({info})")
+                    e.check(np.shape(got) == np.shape(want) and bool(np.array_equal(got, want, equal_nan=True)),
+                            f"{name}(axis={axis}, split_every={se}) = {np.asarray(got).tolist()}, NumPy {np.asarray(want).tolist()} ({info})")
+                    out.append(np.asarray(got).tolist())
+        return str(out)
+
+    return Obligation(f"nan_data[2x{cols},<=3 column chunks]", setup, run)
+
+
 def obligations(tier):
     obs = []
     if tier == "quick":
@@ -1096,7 +1151,9 @@ def obligations(tier):
         obs.append(mk_stats(tier, 1, 3, 2, 3, zero=True))
         obs.append(mk_deep1(tier, 1, 9, ["ones", "one-two", "gaps"]))
         obs.append(mk_deep2(tier, 5, 3))
+        obs.append(mk_nan_data(3))
     else:
+        obs.append(mk_nan_data(4))
         obs += [mk_arg_offsets(nb) for nb in ((1,), (2,), (3,), (4,), (5,), (6,), (2, 2), (3, 2), (2, 3), (3, 3), (4, 3), (4, 4), (2, 2, 2), (3, 2, 2), (2, 2, 3))]
         obs.append(mk_reduce(tier, 1, 5, 3, 6))
         obs.append(mk_reduce(tier, 2, 3, 2, 4))
